@@ -23,9 +23,11 @@ STEPS = {
 DROPS = ('acc', 'mag', 'gyr', 'acc+mag')
 
 
-def _variants():
+def _variants(aqua):
     out = []
     for k, (mag, _) in STEPS.items():
+        if k.startswith('AQUA') != aqua:
+            continue
         for d in DROPS:
             if 'mag' in d and not mag:
                 continue
@@ -33,7 +35,7 @@ def _variants():
     return out
 
 
-@contract('C13', 'dropout', variants=_variants(), optional=True, feas_timeout_ms=1000, budget_s=300, max_paths=200,
+@contract('C13', 'dropout', variants=_variants(False), optional=True, feas_timeout_ms=1000, budget_s=300, max_paths=200,
           functions=sorted(STEPS))
 def c_dropout(c):
     mag, fn = STEPS[c.p['f']]
@@ -57,6 +59,14 @@ def c_dropout(c):
     if out.shape == (4,):
         c.goal('unit', eq(dot(out, out), 1))
     c.observe('q', out)
+
+
+@contract('C13', 'dropout.nosafety', variants=_variants(True), optional=True, feas_timeout_ms=1000, budget_s=300, max_paths=200,
+          no_safety=True, functions=['AQUA.updateIMU', 'AQUA.updateMARG'])
+def c_dropout_aqua(c):
+    """AQUA: unit-norm / ValueError claim only; the exactly-inverted-gravity 0/0 of its delta quaternion is the known finding
+    KF-C13-AQUA-inverted-gravity (replayed on every run)"""
+    c_dropout(c)
 
 
 NOT_COVERED = ["estimates return to within normal tolerance after the dropout ends (a convergence statement, see C05)",
